@@ -202,7 +202,25 @@ fn mutate(b: &mut Vec<u8>, ch: &mut Ch, other: &[u8]) -> &'static str {
         b.push(ch.next() as u8);
         return "from-empty";
     }
-    match ch.pick(10) {
+    match ch.pick(12) {
+        10 | 11 => {
+            // text-aware: the encodings carry names and `::`-separated paths; change one
+            // separator or one name character, keeping every length field consistent
+            let seps: Vec<usize> = (0..b.len().saturating_sub(1)).filter(|i| b[*i] == b':' && b[*i + 1] == b':').collect();
+            let letters: Vec<usize> = (0..b.len()).filter(|i| b[*i].is_ascii_lowercase() || b[*i] == b'_').collect();
+            if !seps.is_empty() && ch.chance(2, 3) {
+                let i = seps[ch.pick(seps.len())];
+                let rep: [&[u8; 2]; 6] = [b"__", b"ab", b":a", b"a:", b"  ", b"\0\0"];
+                b[i..i + 2].copy_from_slice(rep[ch.pick(6)]);
+                "path-separator"
+            } else if !letters.is_empty() {
+                let i = letters[ch.pick(letters.len())];
+                b[i] = [b':', b'.', b' ', b'0', b'A', b'-', 0, 0xff, b'$'][ch.pick(9)];
+                "name-character"
+            } else {
+                "text-none"
+            }
+        }
         0 => {
             let i = ch.pick(b.len());
             b[i] ^= 1 << ch.pick(8);
